@@ -25,7 +25,8 @@ PUSH_RULE = [
 ]
 UNIT = dict(
     name="batch_read_io",
-    props=["C16", "C01", "C11"],
+    props=["C16", "C01", "C11", "C03"],
+    implicit_props=["C16", "C01", "C11"],
     prelude=["core_types.rs", "engine.rs"],
     assumptions=[
         "R10 / A-URING: io_uring as a ghost ring: one completion per submitted read, any order, any result; a completion reporting the full size means that read's buffer holds the file range behind the submitted descriptor",
@@ -59,5 +60,17 @@ UNIT = dict(
              hints=[dict(after_loop=0, text="                proof { lemma_subs_match_intro(*ring, plan@, expected_sizes@); }"),
                     dict(after="let plan_idx = cqe.user_data() as usize;", text="                        proof { lemma_cqe_in_range(*ring, temp_buffers@, plan@, expected_sizes@, __k as int); }"),
                     dict(after_loop=1, text="                proof { lemma_all_filled(*ring, temp_buffers@, plan@, expected_sizes@); }")]),
+    ] + [
+        # the mmap arms of region 3 (io_uring unavailable / FD backend off): the closure body that reads one planned range
+        dict(kind="closure", file=WR, within="impl Walrus / fn batch_read_for_topic", index=i, pattern=r"\|read_plan\|\s*\{",
+             sig="fn mmap_read_range_%d(read_plan: &ReadPlan) -> (ret: Vec<u8>)" % i,
+             rules=[
+                 dict(rule="R8", kind="lit", old="vec![0u8; size]", new="vec_of_zero_bytes(size)", why="vec![0u8; n] -> stub (n bytes)"),
+                 dict(rule="R6", kind="lit", old="read_plan.blk.mmap.read(file_offset, &mut buffer);", new="mmap_read_vec(&read_plan.blk.mmap, file_offset, &mut buffer);", why="SharedMmap::read -> disk model stub"),
+             ],
+             requires=[("", "read_plan.start <= read_plan.end && read_plan.end - read_plan.start <= 0x4000_0000 && read_plan.blk.offset + read_plan.end <= 0x1_ffff_ffff_ffff")],
+             ensures=[("C16,C01,C03:the_mmap_branch_returns_for_a_planned_range_exactly_the_bytes_of_that_range",
+                       "ret@.len() == read_plan.end - read_plan.start && (read_plan.blk.offset + read_plan.end <= disk(read_plan.blk.mmap.file).len() ==> ret@ == want_bytes(*read_plan))")])
+        for i in (0, 1)
     ],
 )
